@@ -27,7 +27,13 @@ CheckNoPanic(e) ==
   /\ Judge("C04", "NoPanic", e.ret.t # "panic", e.ret, "no panic")
   /\ Judge("C04", "RenderOK", e.render.string = "ok" /\ e.render.json = "ok", e.render, "ok")
 
-Check(e) == CheckSent(e) /\ CheckReject(e) /\ CheckNoPanic(e)
+\* the complete card-number space against Wiegand-26, as maximal intervals of accepted numbers:
+\* facility code 0..255 followed by 00000..65535, minus the reserved number 0
+W26Expected == [f \in 1..256 |-> <<U32(IF f = 1 THEN 1 ELSE (f - 1) * 100000), U32((f - 1) * 100000 + 65535)>>]
+CheckW26(e) == Judge("C07", "W26AcceptSet", e.intervals = W26Expected, e.n, 256)
+
+Check(e) == IF e.op = "W26Intervals" THEN CheckW26(e)
+            ELSE CheckSent(e) /\ CheckReject(e) /\ CheckNoPanic(e)
 
 TraceNext == l <= Len(Trace) /\ Check(Trace[l]) /\ l' = l + 1
 ========================================================================
